@@ -13,7 +13,9 @@ PROPS = {
                          {"harness": "offsetpoly", "args": ["--k", 7, "--nmax", 4, "--holes", 0]},
                          {"harness": "offsetpoly", "args": ["--family", "curves"]},
                          {"harness": "offsetpoly", "args": ["--family", "ortho", "--nmax", 12]},
-                         {"harness": "offsetpoly", "args": ["--family", "ortho", "--nmax", 12, "--lat", 1]}],
+                         {"harness": "offsetpoly", "args": ["--family", "ortho", "--nmax", 12, "--lat", 1]},
+                         {"harness": "offsetpoly", "args": ["--family", "ortho", "--nmax", 10, "--ra", 4, "--rb", 3]},
+                         {"harness": "offsetpoly", "args": ["--family", "ortho", "--nmax", 8, "--ra", 12, "--rb", 5, "--lat", 1]}],
         },
         "rule": "every rotation-normalised ordered tuple of 3..n distinct board points that forms a simple polygon passing the turning-angle filter, both orientations, alone and with each of 3 hole shapes that fits strictly inside (hole listed before and after the outer path); plus finely sampled discs and ellipses (240..360 vertices, radius 1600..3200, turning angles 0.5..1.5 degrees), solid and as a hole in a square, offset by 0.3/0.9/1.1/1.5 x their radius; plus every rectilinear simple polygon of 4..10 (thorough: 12) vertices over a 4x4 lattice with line distances 7/9/13/24 (thorough: a second lattice), both orientations, and every pair of strictly disjoint rectangles over the 5x5 extension of that lattice given in one call, x delta in {+-2.5, +-6, +-10, +-14} (slots close, bars vanish, neighbours merge) x {Round, Miter 2, Square, Bevel}; "
                 "x delta in {+-0.4, +-1, +-3.5, +-10, +-25, -60} x {Round x arc tolerance {0, 0.25, 1}, Miter x limit {1, 2, 4}, Square, Bevel} x ReverseSolution; non-trivial = solution non-empty and different from the input",
